@@ -473,6 +473,17 @@ func vRouteCase(r *vrng) (caseLine string, trace string, sig, desc string) {
 		stream = append(stream, c...)
 	}
 	sc := &sconn{chunks: chunks}
+	// one script in four ends with the end of the stream; half of those deliver it together with the last bytes
+	switch r.intn(8) {
+	case 0:
+		sc.eof = true
+		g.emit("L0")
+	case 1:
+		sc.eof, sc.eofWithLast = true, true
+		g.emit("L1")
+	default:
+		g.emit("L0")
+	}
 	tr.sc = sc
 	h := routes.Compile(zap.NewNop(), time.Hour, HandlerFunc(func(cx *Connection) error {
 		tr.add("fallback", "", cx.MatchingBytes())
